@@ -42,6 +42,9 @@ def build(spec):
     import cobra
     kind, k = spec
     rng = random.Random(f"C20-model-{kind}-{k}")
+    if kind == "shipped":
+        from cobra.io import load_model
+        return load_model(k)
     if kind == "hand":
         if k == "chain":
             m = gen.linear_chain(2)
@@ -78,6 +81,8 @@ def build(spec):
 def model_specs(tier, seed):
     n = 60 if tier == "quick" else 400
     specs = [["hand", h] for h in HAND]
+    if tier != "quick":
+        specs += [["shipped", "textbook"], ["shipped", "mini"]]
     k = seed * 10000
     got = 0
     while got < n and k < seed * 10000 + 5000:
